@@ -373,3 +373,220 @@ Proof.
   repeat split; try reflexivity. intros l H0 H1 H3.
   destruct l as [|a [|b [|c [|d l]]]]; cbn in *; try contradiction; try reflexivity; lia.
 Qed.
+
+(* ------------------------------------------------------------------------ *)
+(* Which FILL-array texts are read as MCNP reads them (finding               *)
+(* array_entry_transformation)                                               *)
+(* ------------------------------------------------------------------------ *)
+(* A FILL array as WRITTEN: after the ranges, one entry per element, each a
+   universe number optionally followed by a transformation in parentheses
+   (MCNP: that transformation belongs to THIS entry).  parse_one_cell_worker
+   turns the parentheses into blanks: the code sees the flattened tokens. *)
+Definition entry := (string * list string)%type.
+Definition flatten_entries (es : list entry) : list string :=
+  flat_map (fun e : entry => fst e :: snd e) es.
+
+(* a token ends like a number: in a digit or a decimal point (every spelling
+   to_float accepts does) *)
+Definition ends_plain (t : string) : Prop :=
+  exists c, last_char t = Some c /\ (is_digit c = true \/ c = "."%char).
+
+(* ... and contains no colon (no number does) *)
+Definition tr_token (t : string) : Prop := param_token t /\ ends_plain t /\ has_colon t = false.
+
+Lemma ends_plain_facts t : ends_plain t ->
+  exists c, last_char t = Some c /\ Ascii.eqb c "r" = false /\ Ascii.eqb c "i" = false /\
+            Ascii.eqb c "m" = false /\ Ascii.eqb c "j" = false /\ ends_with_log t = false.
+Proof.
+  intros (c & Hc & [Hd | ->]).
+  - destruct (digit_not_letter c Hd) as (A & B & C & D & _). exists c.
+    repeat split; try assumption. now apply (ends_with_log_digit t c).
+  - exists "."%char. repeat split; try reflexivity; try assumption.
+    unfold ends_with_log. rewrite Hc. reflexivity.
+Qed.
+
+Lemma spells_int_ends_plain t u : spells_int t u -> ends_plain t.
+Proof. intros H. destruct (int_of_signed_last t u H) as (c & Hc & Hd). exists c. auto. Qed.
+
+(* on tokens that end like numbers expand_ints takes one token per value *)
+Lemma expand_ints_count : forall toks expected result consumed r c,
+  Forall ends_plain toks ->
+  expand_ints toks expected result consumed = Ok (r, c) ->
+  (c + List.length result = consumed + List.length r)%nat /\ Z.of_nat (List.length r) = expected.
+Proof.
+  induction toks as [|tok rest IH]; intros expected result consumed r c Hp H.
+  - cbn [expand_ints] in H. destruct (Z.of_nat (List.length result) =? expected)%Z eqn:E; [|discriminate].
+    injection H as <- <-. split; [lia|lia].
+  - cbn [expand_ints] in H. inversion Hp as [|? ? Ht Hr]; subst.
+    destruct (expected <=? Z.of_nat (List.length result))%Z.
+    + destruct (Z.of_nat (List.length result) =? expected)%Z eqn:E; [|discriminate].
+      injection H as <- <-. split; lia.
+    + destruct (ends_plain_facts tok Ht) as (ch & Hc & A & B & C & D & G).
+      rewrite Hc, A, B, C, D, G in H. cbn [orb] in H.
+      destruct (int_of_signed tok) as [v|]; [|destruct (is_num_start tok); discriminate].
+      destruct (IH _ _ _ _ _ Hr H) as [H1 H2]. rewrite app_length in H1. cbn [List.length] in H1.
+      split; lia.
+Qed.
+
+Lemma flatten_length (es : list entry) :
+  List.length (flatten_entries es) = (List.length es + List.length (List.concat (map snd es)))%nat.
+Proof.
+  induction es as [|[u tr] r IH]; [reflexivity|].
+  cbn [flatten_entries flat_map map List.concat fst snd List.length]. fold (flatten_entries r).
+  rewrite !app_length, IH. cbn [List.length]. lia.
+Qed.
+
+(* the tokens beyond the universes, however they were grouped by parentheses *)
+Lemma expand_ints_within : forall toks tail expected result consumed r c,
+  Forall ends_plain toks ->
+  (expected <= Z.of_nat (List.length result) + Z.of_nat (List.length toks))%Z ->
+  expand_ints (toks ++ tail) expected result consumed = Ok (r, c) ->
+  (c + List.length result = consumed + List.length r)%nat /\ Z.of_nat (List.length r) = expected.
+Proof.
+  induction toks as [|tok rest IH]; intros tail expected result consumed r c Hp Hle H.
+  - cbn [app List.length] in *.
+    assert (Hfin : (expected <=? Z.of_nat (List.length result))%Z = true) by lia.
+    destruct tail as [|t tl]; cbn [expand_ints] in H; [|rewrite Hfin in H];
+      (destruct (Z.of_nat (List.length result) =? expected)%Z eqn:E; [|discriminate];
+       injection H as <- <-; split; lia).
+  - cbn [app expand_ints] in H. inversion Hp as [|? ? Ht Hr]; subst.
+    destruct (expected <=? Z.of_nat (List.length result))%Z eqn:Ele.
+    + destruct (Z.of_nat (List.length result) =? expected)%Z eqn:E; [|discriminate].
+      injection H as <- <-. split; lia.
+    + destruct (ends_plain_facts tok Ht) as (ch & Hc & A & B & C & D & G).
+      rewrite Hc, A, B, C, D, G in H. cbn [orb] in H.
+      destruct (int_of_signed tok) as [v|]; [|destruct (is_num_start tok); discriminate].
+      assert (Hle' : (expected <= Z.of_nat (List.length (result ++ [v])) + Z.of_nat (List.length rest))%Z)
+        by (rewrite app_length; cbn [List.length] in *; lia).
+      destruct (IH tail expected (result ++ [v]) (S consumed) r c Hr Hle' H) as [H1 H2].
+      rewrite app_length in H1. cbn [List.length] in H1. split; lia.
+Qed.
+
+Lemma spells_int_num_start t u : spells_int t u -> is_num_start t = true.
+Proof.
+  unfold spells_int, int_of_signed. destruct t as [|d r]; [discriminate|]. cbn [is_num_start].
+  destruct (Ascii.eqb d "-") eqn:E1; [intros _; now rewrite ?orb_true_r|].
+  destruct (Ascii.eqb d "+") eqn:E2; [intros _; now rewrite ?orb_true_r|].
+  intros H.
+  assert (Hs : int_of_string (String d r) <> None).
+  { destruct d as [[] [] [] [] [] [] [] []]; try discriminate E1; try discriminate E2;
+      (destruct (int_of_string _); [discriminate|discriminate H]). }
+  unfold int_of_string in Hs. destruct (all_digits (String d r)) eqn:Ed; [|now elim Hs].
+  cbn [all_digits] in Ed. apply andb_true_iff in Ed as [Ed _]. now rewrite Ed.
+Qed.
+
+(* whatever the grouping, the code reads: size(ranges) universes = the first
+   size tokens, and ALL the remaining numeric tokens as one transformation *)
+Lemma parse_fill_kw_flat (first : string) (more : list string) (bs : bounds)
+      (toks tail : list string) k :
+  Forall2 spells_range (first :: more) bs ->
+  Forall (fun b : Z * Z => (fst b <= snd b)%Z) bs ->
+  Forall (fun t => ends_plain t /\ is_num_start t = true /\ has_colon t = false) toks ->
+  (size bs <= Z.of_nat (List.length toks))%Z -> keyword_or_end tail ->
+  parse_fill_kw first (more ++ toks ++ tail) = Ok k ->
+  fk_params k = skipn (Z.to_nat (size bs)) toks /\ fk_rest k = tail /\ fk_bounds k = Some bs.
+Proof.
+  intros Hr Hwf Ht Hsz Htail H.
+  pose proof (size_pos_text bs Hwf) as Hpos.
+  inversion Hr as [|f b mr bs' Hf Hmore]; subst.
+  unfold parse_fill_kw in H. rewrite (spells_range_has_colon _ _ Hf) in H.
+  destruct toks as [|t0 toks']; [cbn [List.length] in Hsz; lia|].
+  rewrite (span_tokens_app has_colon more ((t0 :: toks') ++ tail)) in H.
+  - rewrite (parse_ranges_spelled _ _ Hr) in H. cbn [bind] in H.
+    destruct (expand_ints ((t0 :: toks') ++ tail) (size (b :: bs')) [] 0) as [[r c]|] eqn:E;
+      [|discriminate]. cbn [bind] in H.
+    destruct (expand_ints_within (t0 :: toks') tail (size (b :: bs')) [] 0%nat r c) as [H1 H2];
+      [eapply Forall_impl; [|exact Ht]; now intros t [A _] | cbn [List.length] in *; lia | exact E |].
+    cbn [List.length] in H1.
+    assert (Hc : c = Z.to_nat (size (b :: bs'))) by lia.
+    destruct c as [|c']; [lia|]. rewrite Hc in H.
+    set (n := Z.to_nat (size (b :: bs'))) in *.
+    assert (Hn : (n <= List.length (t0 :: toks'))%nat) by lia.
+    replace (skipn n ((t0 :: toks') ++ tail)) with (skipn n (t0 :: toks') ++ tail) in H
+      by (rewrite skipn_app; replace (n - List.length (t0 :: toks'))%nat with 0%nat by lia; reflexivity).
+    rewrite (span_tokens_app is_num_start (skipn n (t0 :: toks')) tail) in H.
+    + destruct (forallb is_float_spelling (skipn n (t0 :: toks'))); [|discriminate].
+      injection H as <-. cbn [fk_params fk_rest fk_bounds]. now repeat split.
+    + assert (Hsk : forall (l : list string) m t, In t (skipn m l) -> In t l).
+      { induction l as [|a l IHl]; intros [|m] t Hin; cbn [skipn] in Hin; try exact Hin; [right; eauto]. }
+      rewrite Forall_forall in *. intros t Hin. apply Ht. exact (Hsk _ n t Hin).
+    + exact Htail.
+  - clear - Hmore. induction Hmore as [|s b0 l l' Hs _ IH]; constructor; [|exact IH].
+    now apply (spells_range_has_colon s b0).
+  - right. exists t0, (toks' ++ tail). split; [reflexivity|].
+    inversion Ht as [|? ? (_ & _ & Hc) _]; subst. exact Hc.
+Qed.
+
+Definition mcnp_equivalent (k : fill_kw) (us : list Z) (es : list entry) : Prop :=
+  fk_univs k = FArr us /\ forall e, In e es -> snd e = fk_params k.
+
+Lemma flatten_no_tr (es : list entry) :
+  (forall e, In e es -> snd e = []) -> flatten_entries es = map fst es.
+Proof.
+  induction es as [|[u tr] r IH]; intros H; [reflexivity|].
+  cbn [flatten_entries flat_map map fst snd]. fold (flatten_entries r).
+  pose proof (H (u, tr) (or_introl eq_refl)) as E. cbn [snd] in E. subst tr.
+  rewrite IH; [reflexivity|]. intros e He. apply H. now right.
+Qed.
+
+Lemma concat_same_length (es : list entry) (P : list string) :
+  (forall e, In e es -> snd e = P) ->
+  List.length (List.concat (map snd es)) = (List.length es * List.length P)%nat.
+Proof.
+  induction es as [|[u tr] r IH]; intros H; [reflexivity|].
+  cbn [map List.concat snd List.length]. rewrite app_length, IH by (intros e He; apply H; now right).
+  pose proof (H (u, tr) (or_introl eq_refl)) as E. cbn [snd] in E. subst tr. lia.
+Qed.
+
+(* THE CHARACTERISATION: an array written with per-entry transformations is read
+   as MCNP reads it (right universes, and every entry's own transformation equal
+   to the single transformation the code keeps) exactly when no entry carries a
+   transformation or the array has one element *)
+Theorem fill_array_read_as_mcnp (first : string) (more : list string) (bs : bounds)
+        (es : list entry) (us : list Z) (tail : list string) :
+  Forall2 spells_range (first :: more) bs ->
+  Forall (fun b : Z * Z => (fst b <= snd b)%Z) bs ->
+  Forall2 spells_int (map fst es) us -> Z.of_nat (List.length us) = size bs ->
+  Forall (fun e : entry => Forall tr_token (snd e)) es -> keyword_or_end tail ->
+  ((exists k, parse_fill_kw first (more ++ flatten_entries es ++ tail) = Ok k /\ mcnp_equivalent k us es)
+   <-> ((forall e, In e es -> snd e = []) \/ List.length es = 1%nat)).
+Proof.
+  intros Hr Hwf Hu Hlen Htr Htail.
+  assert (Hn : List.length es = List.length us).
+  { transitivity (List.length (map fst es)); [symmetry; apply map_length|].
+    clear - Hu. induction Hu; cbn [List.length]; [reflexivity|now f_equal]. }
+  split.
+  - intros (k & Hk & Hun & Hpar).
+    assert (Htoks : Forall (fun t => ends_plain t /\ is_num_start t = true /\ has_colon t = false)
+                           (flatten_entries es)).
+    { clear - Hu Htr. revert us Hu. induction es as [|[u tr] r IH]; intros us Hu; [constructor|].
+      cbn [flatten_entries flat_map fst snd map] in *. fold (flatten_entries r).
+      inversion Hu as [|? u0 ? us' H0 Hu']; subst. inversion Htr as [|? ? Ht Htr']; subst. cbn [snd] in Ht.
+      constructor; [|apply Forall_app; split; [|exact (IH Htr' us' Hu')]].
+      - split; [exact (spells_int_ends_plain u u0 H0)|].
+        split; [exact (spells_int_num_start u u0 H0)|exact (int_spelling_no_colon u u0 H0)].
+      - eapply Forall_impl; [|exact Ht]. intros t [[Hs Hf] [He Hc]]. now repeat split. }
+    assert (Hsz : (size bs <= Z.of_nat (List.length (flatten_entries es)))%Z)
+      by (rewrite flatten_length; lia).
+    destruct (parse_fill_kw_flat first more bs _ tail k Hr Hwf Htoks Hsz Htail Hk) as (Hp & _ & _).
+    destruct (Nat.eq_dec (List.length es) 1) as [E1|E1]; [now right|left].
+    assert (Hlp : List.length (fk_params k) = List.length (List.concat (map snd es))).
+    { rewrite Hp, skipn_length, flatten_length. lia. }
+    rewrite (concat_same_length es (fk_params k) Hpar) in Hlp.
+    pose proof (size_pos_text bs Hwf).
+    assert (Hz : List.length (fk_params k) = 0%nat) by nia.
+    intros e He. rewrite (Hpar e He). now apply length_zero_iff_nil.
+  - intros [Hall | Hone].
+    + exists (mkFillKw (Some bs) (FArr us) [] tail). split.
+      * rewrite (flatten_no_tr es Hall).
+        exact (parse_fill_kw_array first more bs (map fst es) us [] tail Hr Hwf Hu Hlen (Forall_nil _) Htail).
+      * split; [reflexivity|]. intros e He. now apply Hall.
+    + destruct es as [|[u tr] [|e2 r]]; try discriminate Hone.
+      exists (mkFillKw (Some bs) (FArr us) tr tail). split.
+      * cbn [flatten_entries flat_map fst snd app]. rewrite app_nil_r.
+        change (more ++ (u :: tr) ++ tail) with (more ++ [u] ++ tr ++ tail).
+        apply (parse_fill_kw_array first more bs [u] us tr tail Hr Hwf Hu Hlen); [|exact Htail].
+        inversion Htr as [|? ? Ht _]; subst. cbn [snd] in Ht.
+        eapply Forall_impl; [|exact Ht]. now intros t [A _].
+      * split; [reflexivity|]. intros e [<-|[]]. reflexivity.
+Qed.
